@@ -152,10 +152,13 @@ def ent_tla(e):
 
 
 def dl_consts(mode, check, maxrec, dests=('dir', 'none', 'file'),
-              conts=(True, False), globfilter=False):
+              conts=(True, False), globfilter=False, keepdots=False,
+              recs=(True,)):
     return dict(Mode=f'"{mode}"', CheckNames=B(check), FilterNames=B(check),
                 DestKinds=SS(dests), Conts='{' + ', '.join(B(c) for c in conts) + '}',
-                MaxRec=maxrec, Fuel=8, GlobFilter=B(globfilter))
+                MaxRec=maxrec, Fuel=8, GlobFilter=B(globfilter),
+                CacheKeepsDots=B(keepdots),
+                Recs='{' + ', '.join(B(c) for c in recs) + '}')
 
 
 # glob patterns below the searched directory "s": wildcard segments and runs
@@ -193,13 +196,28 @@ def pat_tla(pat):
     return '<<' + ', '.join(out) + '>>'
 
 
+# lists of patterns handed to one mget()/glob() call: one SFTPGlob object and
+# its listing cache serve the whole list, so patterns that share directories
+# replay cached listings ('a*' + '*', '*' twice, '*/a' + '*/*', '**' forms;
+# '**/*' replays within a single pattern)
+GLOB_LISTS = [[p_] for p_ in GLOB_PATTERNS] + [
+    ['**/*'], ['a*', '*'], ['*', '*'], ['*/a', '*/*'], ['**', '*'],
+    ['?', '[ab]'], ['*', '**/a']]
+GLOB_LISTS3 = [['a*', '*', '?'], ['*/*', '*', '**'], ['*', '*', '*']]
+
+
+def pats_of_model(pats):
+    return ['/'.join('/'.join(x['v']) for x in segs) for segs in pats]
+
+
 def pat_of_model(segs):
     return '/'.join('/'.join(x['v']) for x in segs)
 
 
-def mget_defs(entries):
+def mget_defs(entries, lists=None):
     import fnmatch
-    wilds = sorted({v for p in GLOB_PATTERNS for k, v in pat_segments(p)
+    lists = lists or GLOB_LISTS
+    wilds = sorted({v for l_ in lists for p in l_ for k, v in pat_segments(p)
                     if k == 'w'})
     names = sorted({e['name'] for e in entries} |
                    {s_['name'] for e in entries for s_ in e['sub']})
@@ -207,7 +225,9 @@ def mget_defs(entries):
            if fnmatch.fnmatch(n.encode(), w.encode())]
     return dict(SNames='{}', Backslash='{}',
                 Entries='{' + ', '.join(ent_tla(e) for e in entries) + '}',
-                Patterns='{' + ', '.join(pat_tla(p) for p in GLOB_PATTERNS) + '}',
+                Patterns='{' + ', '.join(
+                    '<<' + ', '.join(pat_tla(p) for p in l_) + '>>'
+                    for l_ in lists) + '}',
                 Matches='{' + ', '.join('<<<<"%s">>, %s>>' % (w, P(n))
                                         for w, n in rel) + '}')
 
@@ -391,25 +411,53 @@ def main(ctx):
         getdefs(get_entries(True)), ['AllCreatedUnderDest'], workers=2)
 
     md = ('dir', 'none')
-    mdefs = mget_defs(mget_entries())
+    mdefs = mget_defs(mget_entries(),
+                      GLOB_LISTS + ([] if quick else GLOB_LISTS3))
+    gf = variant['glob_filter']
     jobs['mget / glob (table)'] = lambda: run_mc(
         'PathConfineDL', 'mget_t',
         dl_consts('mget', variant['get_filter'], 1 if quick else 2, md,
-                  globfilter=variant['glob_filter']),
+                  globfilter=gf),
         mdefs, ['EmitM'], workers=1, timeout=800)
-    jobs['mget as written'] = lambda: run_mc(
-        'PathConfineDL', 'mget_asis', dl_consts('mget', True, 1, md), mdefs,
-        ['AllCreatedUnderDest'], workers=2)
-    jobs['glob names as written'] = lambda: run_mc(
-        'PathConfineDL', 'glob_asis', dl_consts('mget', True, 1, md), mdefs,
-        ['GlobNamesUnderSearched'], workers=2)
+    # benign servers: "." and ".." listed in every position, lists of
+    # patterns that replay the listing cache, recurse on / off
+    benign = [ent('.', 'dir', sub=[ent('evil', 'file')]),
+              ent('..', 'dir', sub=[ent('evil', 'file')]),
+              ent('a', 'file'), ent('a', 'dir', sub=[ent('a', 'file')]),
+              ent('b', 'file')]
+    multi = [l_ for l_ in GLOB_LISTS + GLOB_LISTS3
+             if len(l_) > 1 or l_ == ['**/*']]
+    bdefs = mget_defs(benign, multi)
+    jobs['mget / glob benign listings (table)'] = lambda: run_mc(
+        'PathConfineDL', 'mget_b',
+        dl_consts('mget', variant['get_filter'], 2 if quick else 3, ('dir',),
+                  conts=(True,), globfilter=gf, recs=(True, False)),
+        bdefs, ['EmitM', 'AllCreatedUnderDest', 'GlobNoDots', 'GlobUnion'],
+        workers=1, timeout=800)
+    jobs['mget with a listing cache that keeps . and ..'] = lambda: run_mc(
+        'PathConfineDL', 'mget_dots',
+        dl_consts('mget', True, 2, ('dir',), conts=(True,), globfilter=True,
+                  keepdots=True), bdefs, ['AllCreatedUnderDest'], workers=2)
+    jobs['glob with a listing cache that keeps . and ..'] = lambda: run_mc(
+        'PathConfineDL', 'glob_dots',
+        dl_consts('mget', True, 2, ('dir',), conts=(True,), globfilter=True,
+                  keepdots=True), bdefs, ['GlobUnion'], workers=2)
+    if not quick:
+        jobs['mget as written'] = lambda: run_mc(
+            'PathConfineDL', 'mget_asis', dl_consts('mget', True, 1, md),
+            mdefs, ['AllCreatedUnderDest'], workers=2)
+        jobs['glob names as written'] = lambda: run_mc(
+            'PathConfineDL', 'glob_asis', dl_consts('mget', True, 1, md),
+            mdefs, ['GlobNamesUnderSearched'], workers=2)
     jobs['mget / glob refusing listed names with a separator'] = lambda: run_mc(
         'PathConfineDL', 'mget_filt',
         dl_consts('mget', True, 1 if quick else 2, md, globfilter=True), mdefs,
-        ['AllCreatedUnderDest', 'GlobNamesUnderSearched'], workers=W,
-        timeout=800)
+        ['AllCreatedUnderDest', 'GlobNamesUnderSearched', 'GlobNoDots',
+         'GlobUnion'], workers=W, timeout=800)
     expect = {
         'mget as written': 'AllCreatedUnderDest',
+        'mget with a listing cache that keeps . and ..': 'AllCreatedUnderDest',
+        'glob with a listing cache that keeps . and ..': 'GlobUnion',
         'glob names as written': 'GlobNamesUnderSearched',
         'map as-written': 'MapUnderRoot',
         'map without normpath': 'MapUnderRoot',
@@ -1071,25 +1119,43 @@ DECOY_LOCS = {('T', 'secret'), ('T', 'sdir'), ('T', 'sdir', 'inner')}
 
 
 def replay_mget(ctx, pc, results, quick):
-    """Client-side glob expansion over hostile listings: every case of the
-    TLC table through the real SFTPClient.mget(recurse=True) (what is created
-    locally) and the real glob() / glob_sftpname() (the names returned)."""
+    """Client-side glob expansion: every sampled case of the two TLC tables
+    (hostile listings x pattern lists; benign listings with "." and ".." in
+    every position x pattern lists that replay the listing cache x recurse)
+    through the real SFTPClient.mget() (what is created locally) and the real
+    glob() / glob_sftpname() (the names returned)."""
     import posixpath
     world = pc.DownloadWorld()
     top = world.area.top
     found = {}
     n = 0
+
+    def outside(x):
+        return x.startswith(b'/') or not (
+            posixpath.normpath(x) + b'/').startswith(b's/')
+
+    def dotted(x):
+        return posixpath.basename(x) in (b'.', b'..')
     try:
         cases = printed_blocks(results['mget / glob (table)'], 'MCASE')
         ctx.require(len(cases) > 100, 'no mget case table')
         cases.sort(key=lambda c: json.dumps(c, sort_keys=True))
-        if len(cases) > (900 if quick else 3500):
+        if len(cases) > (900 if quick else 2200):
             short = [c for c in cases if len(c[1]) <= 1]
             rest = [c for c in cases if len(c[1]) > 1]
-            cases = short + rest[::len(rest) // (300 if quick else 2800) + 1]
+            cases = short + rest[::len(rest) // (300 if quick else 1500) + 1]
         if quick:
             cases = [c for i, c in enumerate(cases)
-                     if (c[0]['dest'] == 'dir' and c[0]['cont']) or i % 6 == 0]
+                     if (c[0]['dest'] == 'dir' and c[0]['cont'] and i % 2 == 0)
+                     or i % 8 == 0]
+        ben = printed_blocks(results['mget / glob benign listings (table)'],
+                             'MCASE')
+        ctx.require(len(ben) > 100, 'no benign mget case table')
+        ben.sort(key=lambda c: json.dumps(c, sort_keys=True))
+        cap = 260 if quick else 1500
+        if len(ben) > cap:
+            ben = ben[::len(ben) // cap + 1]
+        cases += ben
 
         def note(kind, cfg, hist, ex, run_again):
             seq = list(hist)
@@ -1100,40 +1166,48 @@ def replay_mget(ctx, pc, results, quick):
                     seq = cand
                 else:
                     i += 1
-            shape = dl_history('get', seq, False)
+            pats = pats_of_model(cfg['pat'])
+            shape = dl_history('get', seq, False) + (
+                ('several patterns',) if len(pats) > 1 else ())
             key = (kind, shape)
-            inp = (f'pattern={pat_of_model(cfg["pat"])!r} dest={cfg["dest"]}',)\
+            inp = (f'patterns={pats!r} dest={cfg["dest"]} recurse={cfg["rec"]}',)\
                 + tuple(ent_str(conv_ent(e, '/T')) for e in seq)
             old = found.get(key)
             if old is None or (len(inp), inp) < (len(old[0]), old[0]):
                 found[key] = (inp, ex, dict(mode='mget', cfg=cfg, hist=seq))
 
         for cfg, hist, _state, created, tree, names in cases:
-            pat = pat_of_model(cfg['pat']).encode()
+            pat = [x.encode() for x in pats_of_model(cfg['pat'])]
             ents = [conv_ent(e, top) for e in hist]
             created = [tuple(l) for l in created['$set']]
             mesc = any(l[:2] != ('T', 'D') for l in created)
-            r = world.run_mget(pat, ents, cfg['dest'], cfg['cont'])
+            r = world.run_mget(pat, ents, cfg['dest'], cfg['cont'],
+                               recurse=cfg['rec'])
             n += 1
             desc = [ent_str(e) for e in ents]
-            ctx.count(('mget', pat, cfg['dest'], cfg['cont'], tuple(desc)),
-                      nontrivial=bool(created))
-            if n % 200 == 1:
-                ctx.sample({'part': 'mget', 'pattern': 's/' + pat.decode(),
-                            'dest': cfg['dest'], 'listing': desc,
-                            'exception': r['exc'], 'created': sorted(
-                                '/'.join(k) for k in dl_real_shape(
-                                    r['snap'], top))})
+            ctx.count(('mget', tuple(pat), cfg['dest'], cfg['cont'],
+                       cfg['rec'], tuple(desc)), nontrivial=bool(created))
+            if n % 150 == 1:
+                ctx.sample({'part': 'mget', 'patterns':
+                            ['s/' + x.decode() for x in pat],
+                            'dest': cfg['dest'], 'recurse': cfg['rec'],
+                            'listing': desc, 'exception': r['exc'],
+                            'created': sorted('/'.join(k) for k in
+                                              dl_real_shape(r['snap'], top))})
             resc = bool(r['escapes'] or r['outside'])
+            plain = all(x in ('.', '..') or '/' not in x
+                        for x in (e['name'].decode() for e in ents))
             if resc:
                 ex = [e.as_list() for e in r['escapes'][:2]] or r['outside']
                 ex = json.loads(json.dumps(ex).replace(top, '/T'))
 
                 def again(h, cfg=cfg, pat=pat):
                     rr = world.run_mget(pat, [conv_ent(e, top) for e in h],
-                                        cfg['dest'], cfg['cont'])
+                                        cfg['dest'], cfg['cont'],
+                                        recurse=cfg['rec'])
                     return bool(rr['escapes'] or rr['outside'])
-                note('mget-hostile-name', cfg, hist, ex, again)
+                note('mget-dot-entry-copied' if plain else 'mget-hostile-name',
+                     cfg, hist, ex, again)
             if resc != mesc:
                 ctx.divergence(f'mget {pat!r} {cfg["dest"]} {desc}: creation '
                                f'outside dest observed={resc} predicted={mesc}')
@@ -1142,27 +1216,34 @@ def replay_mget(ctx, pc, results, quick):
                 b = dl_model_shape(tree['$set'])
                 if a != b:
                     ctx.divergence(f'mget {pat!r} {cfg["dest"]} cont='
-                                   f'{cfg["cont"]} {desc}: tree observed={a} '
-                                   f'predicted={b} exc={r["exc"]}')
+                                   f'{cfg["cont"]} rec={cfg["rec"]} {desc}: '
+                                   f'tree observed={a} predicted={b} '
+                                   f'exc={r["exc"]}')
             # the names glob() hands to the application
-            if cfg['dest'] == 'dir' and (cfg['cont'] or not quick):
+            if cfg['dest'] == 'dir' and cfg['rec'] and \
+                    (cfg['cont'] or not quick):
                 g = world.run_glob(pat, ents, cfg['cont'], sftpname=n % 2 == 0)
                 n += 1
                 if g['names'] is not None:
                     got = [x.decode('utf-8', 'backslashreplace')
                            for x in g['names']]
                     want = ['/'.join(x) for x in names]
-                    bad = [x for x in got if x.startswith('/') or not (
-                        posixpath.normpath(x) + '/').startswith('s/')]
-                    if bad:
-                        def again_g(h, cfg=cfg, pat=pat):
-                            gg = world.run_glob(pat, [conv_ent(e, top)
-                                                      for e in h], cfg['cont'])
-                            return any(x.startswith(b'/') or not (
-                                posixpath.normpath(x) + b'/').startswith(b's/')
-                                for x in (gg['names'] or []))
-                        note('glob-name-outside-searched-directory', cfg, hist,
-                             bad[:3], again_g)
+                    for kind, pred in (
+                            ('glob-name-outside-searched-directory', outside),
+                            ('glob-reports-dot-entry', dotted)):
+                        bad = [x for x in g['names'] if pred(x)]
+                        if kind.endswith('dot-entry') and not plain:
+                            continue
+                        if kind.startswith('glob-name') and plain:
+                            bad = [x for x in bad if not dotted(x)]
+                        if bad:
+                            def again_g(h, cfg=cfg, pat=pat, pred=pred):
+                                gg = world.run_glob(
+                                    pat, [conv_ent(e, top) for e in h],
+                                    cfg['cont'])
+                                return any(pred(x) for x in gg['names'] or [])
+                            note(kind, cfg, hist,
+                                 [x.decode() for x in bad[:3]], again_g)
                     if got != want:
                         ctx.divergence(f'glob {pat!r} {desc}: names observed='
                                        f'{got} predicted={want}')
@@ -1171,8 +1252,8 @@ def replay_mget(ctx, pc, results, quick):
             ctx.notes.append(f'{kind} {list(shape)}: e.g. ' + '; '.join(inp))
             ctx.violation(
                 {'module': 'PathConfine', 'kind': kind, 'history': list(shape)},
-                f'client-side glob expansion over a hostile listing ({kind}, '
-                f'history {list(shape)}): e.g. {list(inp)} -> {ex}',
+                f'client-side glob expansion ({kind}, history {list(shape)}): '
+                f'e.g. {list(inp)} -> {ex}',
                 replay=dict(raw, kind='mget'))
     finally:
         world.close()
@@ -1447,12 +1528,14 @@ def replay_saved(ctx, pc):
         world = pc.DownloadWorld()
         try:
             cfg = rp['cfg']
-            pat = pat_of_model(cfg['pat']).encode()
+            pat = [x.encode() for x in pats_of_model(cfg['pat'])]
             ents = [conv_ent(e, world.area.top) for e in rp['hist']]
-            r = world.run_mget(pat, ents, cfg['dest'], cfg['cont'])
+            r = world.run_mget(pat, ents, cfg['dest'], cfg['cont'],
+                               recurse=cfg.get('rec', True))
             g = world.run_glob(pat, ents, True)
             bad = [x for x in (g['names'] or []) if x.startswith(b'/') or not (
-                posixpath.normpath(x) + b'/').startswith(b's/')]
+                posixpath.normpath(x) + b'/').startswith(b's/') or
+                posixpath.basename(x) in (b'.', b'..')]
             print('   mget escapes:', [e.as_list() for e in r['escapes']],
                   r['outside'])
             print('   glob names outside the searched directory:', bad)
